@@ -399,7 +399,8 @@ fn run_reuse(quick: bool, replay_dir: &str, prop: &str, sum: &mut Summary) {
             }
             // the canonicalisation must not hide anything: every snapshot reached by the
             // un-canonicalised search (shallower) is reached by the canonicalised one
-            if !reached[1].is_subset(&reached[0]) {
+            // (only meaningful when both searches ran to completion: stateright stops at a discovery)
+            if sum.violations.is_empty() && !reached[1].is_subset(&reached[0]) {
                 sum.violations.push(format!("MACHINERY: canonicalised search misses snapshots ({:?}, capacity {})", kind, cap));
             }
         }
